@@ -104,7 +104,7 @@ def solve_one(job):
 def feasible_one(job):
     """is the hypothesis set (path condition) refutable?  'unsat' => infeasible path"""
     name, smt2 = job
-    r, ms, _, _ = _z3_check(smt2, 1500)
+    r, ms, _, _ = _z3_check(smt2, 600)
     return name, r, ms
 
 
